@@ -314,6 +314,20 @@ pub fn module_items() -> Vec<Item> {
         add(&format!("sib:{tag}:use"), "@use \"epart\";\na { b: c; }\n", &files);
         add(&format!("sib:{tag}:loadcss"), "@use \"sass:meta\";\na { b: c; }\n@include meta.load-css(\"epart\");\n", &files);
     }
+    // a user library that takes a built-in module in with `as *` and is then inspected like a module:
+    // whatever identifies "the built-in module" must not be something `as *` copies along
+    for m in ["math", "string", "list", "map", "color", "meta", "selector"] {
+        add(
+            &format!("inspect-lib-star-{m}"),
+            &format!("@use \"sass:meta\";\n@use \"lib\";\na {{ f: meta.inspect(map-keys(meta.module-functions(\"lib\"))); v: meta.inspect(meta.module-variables(\"lib\")); o: lib.own(1); }}\n"),
+            &[("lib.scss", &format!("@use \"sass:{m}\" as *;\n$own-var: 1;\n@function own($x) {{ @return $x + $own-var; }}\n"))],
+        );
+        add(
+            &format!("inspect-builtin-{m}"),
+            &format!("@use \"sass:meta\";\n@use \"sass:{m}\";\na {{ f: meta.inspect(map-keys(meta.module-functions(\"{m}\"))); v: meta.inspect(meta.module-variables(\"{m}\")); own: meta.function-exists(\"own\", \"{m}\"); }}\n"),
+            &[],
+        );
+    }
     add(
         "two-users",
         "@use \"a\";\n@use \"b\";\nr { a: a.$v; b: b.$w; }\n",
